@@ -242,7 +242,7 @@ impl Trace {
     pub fn write(&self, dir: &Scratch) -> Vec<std::path::PathBuf> {
         self.events().iter().enumerate().map(|(i, evs)| {
             // later files get later initial timestamps, but names that sort the other way round
-            let data = encode_file(self.run, 5000 + i as u32, 5001 + i as u32, evs);
+            let data = encode_file(self.run, 5000 + 3 * i as u32, 5003 + 3 * i as u32, evs);
             let name = format!("f{}", 9 - i);
             if self.lz4_mask >> i & 1 == 1 { dir.write(&format!("{name}.mid.lz4"), &lz4_frame(&data)) } else { dir.write(&format!("{name}.mid"), &data) }
         }).collect()
